@@ -248,3 +248,16 @@ def outer1(z=0):
 def outer2(z=0):
   with gin.config_scope('deep'):
     return outer1()
+
+
+# ---- C06: names that differ only in case ------------------------------------------
+@gin.configurable('Foo', module='vw.case')
+def case_upper(p=0):
+  rec('Foo', p)
+  return p
+
+
+@gin.configurable('foo', module='vw.case')
+def case_lower(p=0):
+  rec('foo', p)
+  return p
